@@ -3,10 +3,10 @@
 # Applies the seeded change to a scratch worktree of /repo's HEAD, confirms the demonstration, runs the checks.
 d=$1; shift
 W=${SEEDTEST:-/tmp/seedtest}
-git -C $W checkout -q -- . ; git -C $W clean -qfd -e '*.so' -e build >/dev/null
+git -C $W reset -q --hard; git -C $W checkout -q -- . ; git -C $W clean -qfd -e '*.so' -e build >/dev/null
 git -C $W checkout -q --detach $(git -C /repo rev-parse HEAD) 2>/dev/null
 echo "## demo on clean tree:"; (cd $W && timeout 300 /venv/bin/python $d/demo.py >${W}_demo.out 2>&1; echo "exit=$?"; tail -2 ${W}_demo.out)
-if ! git -C $W apply --3way $d/patch.diff 2>${W}_apply.err; then echo "PATCH DOES NOT APPLY"; cat ${W}_apply.err; exit 3; fi
+if ! git -C $W apply --3way $d/patch.diff 2>${W}_apply.err; then echo "PATCH DOES NOT APPLY"; cat ${W}_apply.err; git -C $W reset -q --hard; exit 3; fi
 CCHANGED=0
 if git -C $W diff HEAD --name-only | grep -q '\.[ch]$'; then CCHANGED=1; (cd $W && /venv/bin/python setup.py -q build_ext --inplace --force >/dev/null 2>&1); fi
 echo "## demo with change:"; (cd $W && timeout 300 /venv/bin/python $d/demo.py >${W}_demo.out 2>&1; echo "exit=$?"; tail -2 ${W}_demo.out)
